@@ -22,6 +22,13 @@ theorem delete_ok (g g' : G) (sub : List Nat) (h : delete g sub = .ok g') :
     (∀ n ∈ g'.elems, n ∈ g.elems ∧ n ∉ sub) :=
   delete_spec g g' sub h
 
+/-- "Attribute links and link elements alike": a link element that pointed at a deleted element is
+itself removed from the model — it does not survive as an element without a target. -/
+theorem delete_removes_link_elements (g g' : G) (sub : List Nat) (h : delete g sub = .ok g')
+    (r : Ref) (hr : r ∈ g.refs) (ht : r.target ∈ sub) (hk : r.kind = .linkElem) :
+    r.carrier ∉ g'.elems :=
+  delete_removes_link_elements' g g' sub h r hr ht hk
+
 /-- A reference that refuses purging (a physical link end) anywhere into the deleted set makes the
 deletion raise; the function yields no new graph: the model is exactly as before. The enter phase
 only collects, so this holds wherever the refusing reference sits among the reported ones. -/
